@@ -129,6 +129,12 @@ InverseChirp ==
 ChirpZeroAtRef ==
   Post("alg") => /\ REq(ChirpPhase(par.k, par.f1, par.f1), RZero)
                  /\ RSign(ChirpPhase(par.k, par.f1, par.f2)) \in {0, RSign(par.k)}
+\* reference at infinite frequency: the chirp phase is K DM / f and the delay K DM / f^2
+InfiniteRef ==
+  Post("alg") => /\ REq(ChirpPhaseInf(par.k, par.f1), RDiv(par.k, par.f1))
+                 /\ REq(SampleDelayInf(par.k, par.f1, par.f3), RMul(RDiv(par.k, RMul(par.f1, par.f1)), par.f3))
+                 /\ REq(RSub(SampleDelayInf(par.k, par.f1, par.f3), SampleDelayInf(par.k, par.f2, par.f3)),
+                        SampleDelay(par.k, par.f1, par.f2, par.f3))
 DelayAntisym ==
   Post("alg") => REq(Delay(par.k, par.f1, par.f2), RNeg(Delay(par.k, par.f2, par.f1)))
 DelayAdditive ==
@@ -152,6 +158,9 @@ ChirpIsDelay ==
 FixAgrees ==
   Post("alg") =>
     /\ PhaseFixAgrees(par.k, par.f1, par.f2)
+    /\ PhaseAgreesR(par.k, par.f1, RefOf(par.f2, TRUE))
+    /\ DelayAgreesR(par.k, par.f1, RefOf(par.f2, TRUE), par.f3)
+    /\ DelayAgreesR(par.k, par.f1, RefOf(par.f2, FALSE), par.f3)
     /\ SampleDelayAgrees(par.k, par.f1, par.f2, par.f3)
     /\ LET v == ChirpPhaseFix(par.k, par.f1, par.f2)
            a == CosSinDy(v)
